@@ -855,10 +855,9 @@ def main():
         print("TOOL-ERROR property=%s %s" % (prop, e))
         return 2
     finally:
+        # the run's own directory (cases, events, TLC metadirs: gigabytes in the thorough tier) goes away unless
+        # --keep was given; replay files of violations live in work/violations
         if not keep and not replay:
-            for name in os.listdir(workdir) if os.path.isdir(workdir) else []:
-                p = os.path.join(workdir, name)
-                if os.path.isdir(p):
-                    shutil.rmtree(p, ignore_errors=True)
+            shutil.rmtree(workdir, ignore_errors=True)
 
 
